@@ -34,6 +34,8 @@ type hoDriver struct {
 	bg   *bridgeGen
 	opts HandoverOpts
 	fill int // relayer transactions still waiting in the mempool from a flood (more than one block can carry)
+
+	lastBlock bool // the history's final block (determinism mode: the whole validator set may leave in it)
 }
 
 func (d *hoDriver) emit(ev string, f Ev) {
@@ -117,6 +119,7 @@ func handoverHistory(w *tracew.Writer, seed int64, run, depth int, o HandoverOpt
 	}
 	d.emit("init", Ev{"C": st, "h": a.C.Height})
 	for i := 0; i < depth; i++ {
+		d.lastBlock = i == depth-1
 		if err := d.height(); err != nil {
 			return err
 		}
@@ -242,6 +245,7 @@ func (d *hoDriver) height() error {
 	a, b, r := d.a, d.b, d.r
 	rare := func(k int) bool { return r.Intn(k) == 0 }
 	h := a.C.Height + 1
+	d.lg.exodus = d.opts.Mode == "determinism" && d.lastBlock && d.run%2 == 0
 	lp := d.lg.plan()
 	bp, err := d.bg.plan(d.bg.mode)
 	if err != nil {
